@@ -104,6 +104,7 @@ type Replica struct {
 // Runner owns the replicas of one history. Replica 0 is the leader: its dumps
 // feed the decoded state; the optional scout answers admission queries.
 type Runner struct {
+	ByzPct  int // share (percent) of mempool-refused transactions a byzantine proposer includes anyway
 	W       *world.World
 	Dir     string
 	Keyring string
@@ -200,11 +201,25 @@ func (r *Runner) Admit(specs []TxSpec) (ok []TxSpec, rejected []TxSpec, checks [
 			ok = append(ok, s)
 		} else {
 			s2 := s
-			if s2.Meta == nil {
-				s2.Meta = map[string]string{}
+			s2.Meta = map[string]string{}
+			for k, v := range s.Meta {
+				s2.Meta[k] = v
 			}
 			s2.Meta["check_log"] = c.Log
 			rejected = append(rejected, s2)
+			if r.ByzPct > 0 && !resp.Panicked {
+				// a byzantine proposer includes what its mempool refused (a fixed share, chosen by content)
+				sum := 0
+				for _, b := range s.Bytes {
+					sum = (sum*31 + int(b)) % 1000003
+				}
+				if sum%100 < r.ByzPct {
+					s3 := s2
+					s3.Force = true
+					s3.Meta["byzantine"] = "refused by the mempool check, included anyway"
+					ok = append(ok, s3)
+				}
+			}
 		}
 	}
 	return
